@@ -76,7 +76,7 @@ Definition literal_tok (t : ctok) : bool :=
 Inductive pos :=
 | PWhereEq | PWhereIn | PWhereBetween | PWhereLike | PSelectFunc | PWhereFunc | PSelectCase | PSelectVal | PSelectAlias
 | PInsert | PSet | POnDup | POnConflict | PDefault | PHaving | PJoinOn | PSubWhere | PFromSub | PTupleEq | PArrayElem
-| PArith.
+| PArith | PCaseWhen | PCaseElse | PWithOne | PWithTwo.
 
 Definition fa : term := TField "a" None None.
 Definition tbl (n : string) : option tref := Some {| tname := n; tschema := []; talias := None |}.
@@ -97,6 +97,9 @@ Definition plug (p : pos) (v : term) : term :=
                            (TTuple (TCons v (TCons (TValI 1 None) TNil)) None) None
   | PArrayElem => TArray (TCons v (TCons (TValS "b" None) TNil)) None            (* Array(v, "b") *)
   | PArith => TArith OAdd fa v None                                              (* Field("a") + v *)
+  | PCaseWhen => TCase (WCons (TBasic CEq fa v None) (TValI 1 None) WNil) (OSome (TValI 2 None)) None   (* Case().when(a==v, 1).else_(2) *)
+  | PCaseElse => TCase (WCons (TBasic CEq fa (TValI 1 None) None) (TValI 0 None) WNil) (OSome v) None   (* Case().when(a==1, 0).else_(v) *)
+  | PWithOne | PWithTwo => TBasic CEq (TField "b" None None) v None             (* Field("b") == v in the body of a CTE *)
   end.
 
 Definition pos_wrap (p : pos) : wrapping :=
@@ -114,12 +117,15 @@ Definition with_flags (c : ctx) (wa' wn' subq' : bool) : ctx :=
 (* the keyword arguments that reach the expression (queries.py: _select_sql / _values_sql pass with_alias=True,
    subquery=True; _where_sql and JoinOn.get_sql pass subquery=True; _having_sql, _set_sql, MySQL's
    _on_duplicate_key_update_sql pass kwargs unchanged; PostgreSQL's _on_conflict_action_sql adds
-   with_namespace=True; a join switches with_namespace on; Column.get_sql gets the CREATE builder's kwargs) *)
+   with_namespace=True; a join switches with_namespace on; Column.get_sql gets the CREATE builder's kwargs;
+   _with_sql renders each CTE body through its own QueryBuilder.get_sql, i.e. an ordinary WHERE) *)
 Definition pos_ctx (p : pos) (k : qclass) : ctx :=
   let c := class_ctx k in
   match p with
-  | PWhereEq | PWhereIn | PWhereBetween | PWhereLike | PWhereFunc | PTupleEq | PSubWhere | PFromSub => with_flags c false false true
-  | PSelectFunc | PSelectCase | PSelectVal | PSelectAlias | PArrayElem | PArith | PInsert => with_flags c true false true
+  | PWhereEq | PWhereIn | PWhereBetween | PWhereLike | PWhereFunc | PTupleEq | PSubWhere | PFromSub | PWithOne | PWithTwo =>
+      with_flags c false false true
+  | PSelectFunc | PSelectCase | PSelectVal | PSelectAlias | PArrayElem | PArith | PInsert | PCaseWhen | PCaseElse =>
+      with_flags c true false true
   | PSet | POnDup | PHaving => with_flags c false false false
   | POnConflict => with_flags c false true false
   | PJoinOn => with_flags c false true true
